@@ -98,7 +98,7 @@ def run_checks(sid):
 def main():
     if sys.argv[1] == 'import':
         pid, i, src = sys.argv[2], sys.argv[3], sys.argv[4]
-        sid = '%s-%s' % (pid, i)
+        sid = '%s-%s' % (pid, sys.argv[5] if len(sys.argv) > 5 else i)
         d = os.path.join(SEEDED, sid)
         os.makedirs(d, exist_ok=True)
         shutil.copy(os.path.join(src, 'patch%s.diff' % i), os.path.join(d, 'patch.diff'))
